@@ -8,7 +8,8 @@ LEVEL = "exploration"
 RULE = (
     "case = (membrane, query temperature): 1..6 experiments per component at distinct temperatures (>= 1 K apart, "
     "shuffled and interleaved with the other component's), stated or unstated activation energy in -60..120 kJ/mol, "
-    "on an Arrhenius line or perturbed, any of the 3 units; queries at 260-420 K, 25 % exactly at an experiment's "
+    "on an Arrhenius line or perturbed, any of the 3 units, built directly or (30 % of the built-in mixtures) written to an "
+    "ideal_experiments.csv with empty cells and read back through IdealExperiments.from_csv; queries at 260-420 K, 25 % exactly at an experiment's "
     "temperature; near-ties between nearest experiments (< 1e-6 K) are re-drawn. Reference: independent nearest-"
     "experiment search + exact-rational regression. non-trivial = query off the experiment temperatures; distinct = "
     "distinct (experiments, query)"
@@ -56,7 +57,34 @@ def run_shard(spec, rep):
         rng.shuffle(exps)
         mem = Membrane(name="M", ideal_experiments=IdealExperiments(experiments=exps))
         plain = [_plain(mem, c1), _plain(mem, c2)]
-        cls = f"{'stated' if stated[0] else 'regressed'}-{'line' if on_line else 'scatter'}"
+        route = "direct"
+        if isinstance(mdesc, str) and rng.random() < 0.3:
+            # the same experiments written to ideal_experiments.csv (empty cells for unstated activation energies and
+            # for most comments) and read back through the library: the membrane must answer like the direct one
+            import csv
+            import os
+            import tempfile
+
+            d = tempfile.mkdtemp(prefix="pvmon_c12_")
+            try:
+                with open(os.path.join(d, "ideal_experiments.csv"), "w", newline="") as fh:
+                    wr = csv.writer(fh)
+                    wr.writerow(["name", "temperature", "component", "activation_energy", "permeance", "units", "comment"])
+                    from pyvaporation.components import Components
+
+                    attr_of = {id(v): k for k, v in vars(Components).items() if not k.startswith("_")}
+                    for e in exps:
+                        wr.writerow(["exp", repr(e.temperature), attr_of[id(e.component)], "" if e.activation_energy is None else repr(e.activation_energy),
+                                     repr(e.permeance.value), e.permeance.units, "note" if rng.random() < 0.3 else ""])
+                mem = Membrane(name="M", ideal_experiments=IdealExperiments.from_csv(os.path.join(d, "ideal_experiments.csv")))
+                route = "csv"
+            finally:
+                import shutil
+
+                shutil.rmtree(d, ignore_errors=True)
+            rep.require("csv route: every experiment row is loaded", len(mem.ideal_experiments.experiments) == len(exps), {"index": index, "mixture": mdesc},
+                        {"written": len(exps), "loaded": len(mem.ideal_experiments.experiments)})
+        cls = f"{'stated' if stated[0] else 'regressed'}-{'line' if on_line else 'scatter'}-{route}"
         for q in range(6):
             # query temperature
             while True:
@@ -84,7 +112,7 @@ def run_shard(spec, rep):
                     c2_ = dict(case, component=comp.name)
                     rep.require("permeance reported in kg/(m2 h kPa)", p.units == Units.kg_m2_h_kPa, c2_, {"units": p.units})
                     if pl[idx]["T"] == t:
-                        rep.check("at an experiment temperature: the measured value", abs(p.value - ref), 4 * EPS * ref, c2_,
+                        rep.check("at an experiment temperature: the measured value", abs(p.value - ref), (4 * EPS if route == "direct" else 1e-12) * ref, c2_,  # pandas' default float parser is not correctly rounded
                                   {"got": p.value, "ref": ref})
                     else:
                         rep.check("Arrhenius extrapolation from the nearest experiment", abs(p.value - ref), 1e-9 * ref, c2_,
@@ -103,8 +131,8 @@ def run_shard(spec, rep):
                                 rep.check("on-line data: permeance independent of the nearest experiment", abs(p.value - line), 1e-7 * line, c2_,
                                           {"got": p.value, "line": line})
                     elif len(pl) == 1 and pl[0]["Ea"] is not None:
-                        rep.require("single experiment: stated Ea returned",
-                                    mem.calculate_activation_energy(comp) == pl[0]["Ea"], c2_)
+                        rep.check("single experiment: stated Ea returned",
+                                  abs(mem.calculate_activation_energy(comp) - pl[0]["Ea"]), 0.0 if route == "direct" else 1e-12 * abs(pl[0]["Ea"]), c2_)
                     # pure component flux
                     psat = comp.get_vapor_pressure(t)
                     tp = rng.uniform(120, t)
